@@ -1,7 +1,7 @@
 """C09 - the scan selects exactly the files the options describe."""
 import re
 from . import register
-from ..analysis import (slice_const_values, backslice, comparisons, branch_of, dominated_region, closure_creation, forward_locals,
+from ..analysis import (return_variants_from, slice_const_values, backslice, comparisons, branch_of, dominated_region, closure_creation, forward_locals,
                         truth_table, table_equals, switch_targets_bool, count_nots, FLIP, NEG, upvar_operand)
 from ..facts import const_int, op_local, op_const, const_val, place_fields
 
@@ -19,10 +19,11 @@ DOC = {
         'C09.R4': 'visited set consulted only under follow_links; hidden = file name starts with "."; .gitignore consulted unless no_ignore',
         'C09.R5': 'include/exclude path patterns are made absolute with abs_pattern(base_dir, _); name patterns are not',
         'C09.R6': 'visit_dir reads a directory iff level < depth && matches_dir && (!one_fs || same_fs) (reach table over these atoms)',
+        'C09.R15': 'with -L a directory is walked once, so the ignore rules applied below it must not depend on the route: the ignore stack handed to a link target is a function of the target, not of the directory that holds the link (visit_link must not pass its own stack on)',
         'C09.R14': 'the directory admission test (PathSelector::matches_dir: "could something below match?") is applied to directories only: its callers are visit_dir alone - applied to an input path or a link target that is a file it asks whether `file/...` is excluded and drops files that no pattern excludes',
         'C09.R13': 'ignore files as documented: IgnoreStack::push loads .gitignore and .fdignore of a directory independently of each other (neither is looked at only when the other is absent); IgnoreStack::matches lets the deepest ignore file that says anything decide (reverse iteration, a whitelist `!` match ends the search with "not ignored"), instead of "ignored by any level"',
         'C09.R12': 'input paths read from the standard input (--stdin) are taken as bytes, like paths given as arguments (OsString): no UTF-8-only reader (lines / read_line / read_to_string / String::from_utf8 + unwrap) between stdin and Path; an empty line is not a path (it would mean the working directory)',
-        'C09.R11': 'marking an entry as visited (follow_links) does not cut off routes that would get further: the mark is made after the route-dependent .gitignore test, and either it records the nesting level (a directory reached again at a smaller level is read again) or it is made only after the --depth test passed',
+        'C09.R11': 'marking an entry as visited (follow_links) does not cut off routes that would get further: the mark is made after the route-dependent .gitignore test, and either it records the nesting level (a directory reached again at a smaller level is read again) or it is made only after the --depth test passed; directories are marked in visit_dir after the route-specific pruning tests; a smaller level always re-visits (input paths are level 0)',
         'C09.R10': 'a --regex pattern is never joined with anchors (^...$) or with another pattern (base directory + relative pattern) without a grouping step for a top-level alternation: `^a|b$` means (^a)|(b$), which selects files that are not matched fully and makes the fixed prefix used for pruning the prefix of the first alternative only',
         'C09.R9': 'matches_dir prunes a directory because of an --exclude pattern only through a predicate that holds for the whole subtree: the regex match of the directory path is gated by a test that the pattern source ends with `.*` (`**`); a bare prefix or full match of the directory path is not conservative (`--exclude o` would prune `other/`)',
         'C09.R8': 'the visited set (follow_links) is keyed by a path identity hash that delimits the hashed components (re-evaluates C03.R9 on the key function found at the insert)',
@@ -47,10 +48,13 @@ def run(ctx):
     r9(ctx)
     r10(ctx)
     r11(ctx)
+    r11b(ctx)
     r12(ctx)
     r12b(ctx)
+    r12c(ctx)
     r13(ctx)
     r14(ctx)
+    r15(ctx)
     from .common import run_mandatory
     run_mandatory(ctx, 'C09')
 
@@ -171,6 +175,24 @@ def _groups(lib, body, operand):
     return False
 
 
+def r15(ctx):
+    rule = 'C09.R15'
+    lib = ctx.lib
+    vl = ctx.need_body(rule, W + 'visit_link')
+    if vl is None:
+        return
+    vp = vl.calls(r"Walk::<'a>::visit_path$")
+    if not vp:
+        ctx.missing(rule, 'visit_path in visit_link', vl.where())
+        return
+    # the ignore-stack argument of visit_path: is it the parameter received by visit_link (the stack of the link's directory)?
+    stack_args = [a for a in vp[0].args if 'IgnoreStack' in vl.local_ty(op_local(a) if op_local(a) is not None else 0)]
+    inherited = any(backslice(vl, [a]).params and not backslice(vl, [a]).has_call(r'IgnoreStack::(new|empty|for_path|push)$') for a in stack_args)
+    ctx.check(bool(stack_args) and not inherited, rule, vl.path + '|target-stack-not-inherited', vp[0].where(), 'the link target is visited with an ignore stack built for the target',
+              'visit_link hands the ignore stack of the directory that holds the link to the target: with -L the first route to reach a directory decides which .gitignore rules apply to its whole subtree '
+              '(e/b/link -> ../a/sub reaches e/a/sub without e/a/.gitignore), and which route is first depends on --threads and on the inode order: `group -t 1 -L e` reports 0 files, `-t 4` reports 2')
+
+
 def r14(ctx):
     rule = 'C09.R14'
     lib = ctx.lib
@@ -248,6 +270,25 @@ def r12b(ctx):
               'working directory, and files that were never selected are reported as duplicates')
 
 
+def r12c(ctx):
+    rule = 'C09.R12'
+    lib = ctx.lib
+    pp = [b for p_, b in lib.bodies.items() if re.search(r'^<config::PathParser as .*TypedValueParser>::parse_ref$', p_)]
+    if not pp:
+        ctx.missing(rule, 'PathParser::parse_ref')
+        return
+    b = pp[0]
+    ok = False
+    for c in b.calls(r'::is_empty$'):
+        for (bbx, idx, what) in b.operand_uses(c.dest[0]):
+            if what[0] == 'switch':
+                tt, ft = switch_targets_bool(what[1])
+                if tt is not None and 'Err' in return_variants_from(b, tt) and 'Ok' not in return_variants_from(b, tt):
+                    ok = True
+    ctx.check(ok, rule, b.path + '|no-empty-argument', b.where(), 'an empty path argument is rejected by the value parser',
+              'every string given as a path argument becomes a Path, and the empty string becomes `.`: `fclones group selected "$UNSET"` scans the whole working directory and reports files that were never selected')
+
+
 def r11(ctx):
     rule = 'C09.R11'
     lib = ctx.lib
@@ -278,6 +319,19 @@ def r11(ctx):
                     if sl:
                         names |= sl.param_names(x) | {n for _, n in sl.upvars}
     level_aware = 'level' in names
+    # ... and the stored level is really compared with the incoming one (a re-visit at a smaller level)
+    cmp_level = False
+    for x in bodies:
+        for cmp in comparisons(x):
+            sa_, sb__ = backslice(x, [cmp.a]), backslice(x, [cmp.b])
+            pa = {n for n in sa_.param_names(x) if n}        # named parameters: the stored value handed to and_modify
+            pb = {n for n in sb__.param_names(x) if n}
+            ua = {n for _, n in sa_.upvars} | ({n for n in pa} if x.kind != 'closure' else set())
+            ub = {n for _, n in sb__.upvars} | ({n for n in pb} if x.kind != 'closure' else set())
+            incoming_a, incoming_b = 'level' in ua and not pa, 'level' in ub and not pb
+            if cmp.op in ('<', '>', '<=', '>=') and ((incoming_a and pb) or (incoming_b and pa)):
+                cmp_level = True
+    level_aware = level_aware and cmp_level
     in_visit_dir = kbody.path.endswith('visit_dir')
     after_depth = False
     if in_visit_dir:
@@ -289,6 +343,48 @@ def r11(ctx):
               'the visited record carries the nesting level' if level_aware else 'directories are marked only after the depth test',
               'a directory is marked as visited before the --depth test and without its level: first reached at the depth limit (not read) it is skipped when reached again at a smaller '
               'level (overlapping roots `group R/a/b R --depth 2 -L`, or a symlink that is a shortcut into the tree), so files within the depth limit are lost')
+
+
+def r11b(ctx):
+    """the visited mark must not consume a visit that a route-specific test then refuses (--one-fs device of the root, selector, depth),
+    and an input path (level 0) is always visited whichever other input path reached it first"""
+    rule = 'C09.R11'
+    lib = ctx.lib
+    vd = lib.body(W + 'visit_dir')
+    ve = lib.body(W + 'visit_entry')
+    mk = lib.body(W + 'mark_visited')
+    if vd is None or ve is None:
+        return
+    sf = vd.calls(r"Walk::<'a>::same_fs$")
+    md = vd.calls(r'PathSelector::matches_dir$')
+    marks_d = [c for c, kb, k in visited_sites(lib, vd)]
+    ok = bool(marks_d) and bool(sf) and bool(md) and all(sf[0].bb not in vd.reachable(c.bb) and md[0].bb not in vd.reachable(c.bb) for c in marks_d)
+    # ... and visit_entry does not mark directories itself
+    marks_e = [c for c, kb, k in visited_sites(lib, ve)]
+    guarded = True
+    for c in marks_e:
+        g = False
+        for d in ve.dominators()[c.bb]:
+            t = ve.blocks[d]['term']
+            if t['k'] == 'switch' and 'tpe' in backslice(ve, [t['op']]).field_names():
+                g = True
+        guarded = guarded and g
+    ctx.check(ok and guarded, rule, vd.path + '|dir-marked-when-read', (marks_d[0].where() if marks_d else (marks_e[0].where() if marks_e else vd.where())),
+              'a directory is marked as visited in visit_dir, after the --one-fs / selector / depth tests (visit_entry marks only non-directories)',
+              'a directory is marked as visited before visit_dir decides whether this route may read it: a route that prunes it (--one-fs: other device than its root; selector; depth) still consumes the visit, '
+              'and the route that would read it is dropped - `group -L --one-fs /dev/shm /dev` finds nothing in /dev/shm with one thread and everything with four')
+    if mk is not None:
+        bodies = [mk] + [lib.body(x) for x in lib.closures_of(mk.path)]
+        reads_depth = False
+        for x in bodies:
+            for blk in x.blocks:
+                for st in blk['stmts']:
+                    for pl in [st['rv'].get('p')] + [((o.get('c') or o.get('m')) if isinstance(o, dict) else None) for o in [st['rv'].get('op'), st['rv'].get('a'), st['rv'].get('b')] + list(st['rv'].get('ops') or [])]:
+                        if pl and 'depth' in place_fields(pl):
+                            reads_depth = True
+        ctx.check(not reads_depth, rule, mk.path + '|smaller-level-revisits', mk.where(), 'an entry reached at a smaller level than before is visited again, whatever the depth limit',
+                  'a re-visit at a smaller level is allowed only when --depth is given: otherwise an input path (level 0) that another input path reached first is not walked with its own ignore rules and root device '
+                  '- `group S/sub S -L` loses the files of S/sub that S/.gitignore ignores, `group S S/sub -L` does not')
 
 
 def r10(ctx, rule='C09.R10'):
@@ -624,7 +720,7 @@ def r4(ctx):
                 ok = b.dominates(tt if n % 2 == 0 else ft, c.bb)
         ctx.check(ok, rule, P + '|visited-only-when-following', c.where(), 'the visited set is consulted only under follow_links', 'the visited set is consulted without follow_links (overlapping roots would lose files)')
         ksl = backslice(kbody, [kcall.args[1]])
-        ctx.check(ksl.has_call(r'path::Path::hash128$') and 'path' in ksl.field_names(), rule, P + '|visited-key', kcall.where(), 'visited key = hash of the entry path', 'visited key is not derived from the entry path')
+        ctx.check(ksl.has_call(r'path::Path::hash128$') and ('path' in ksl.field_names() or 'path' in ksl.param_names(kbody)), rule, P + '|visited-key', kcall.where(), 'visited key = hash of the entry path', 'visited key is not derived from the entry path')
     sw = b.calls(r'str::<impl str>::starts_with$|::starts_with$')
     if ctx.floor(rule, 'hidden test (starts_with) in visit_entry', len(sw), 1, b.where()):
         c = sw[0]
@@ -736,12 +832,18 @@ def r67(ctx):
         cmps = [c for c in comparisons(b) if 'depth' in (backslice(b, [c.a]).field_names() | backslice(b, [c.b]).field_names())]
         if rd and md and sf and cmps:
             atoms = {'deep': cmps[0].bb, 'matches_dir': md[0].bb, 'same_fs': sf[0].bb, 'one_fs': ('field', 'one_fs'), 'no_ignore': ('field', 'no_ignore')}
+            mv = b.calls(r"Walk::<'a>::mark_visited$")
+            if mv:
+                atoms['first_visit'] = mv[0].bb
+                atoms['follow_links'] = ('field', 'follow_links')
             tt = truth_table(b, atoms, target_bb=rd[0].bb, field_owner='Walk')
             # `deep` = the depth comparison as written (true = too deep after C09.R1 normalisation is checked separately)
             br = branch_of(b, cmps[0])
             deep_true_skips = br is not None and not b.dominates(br[1], rd[0].bb)
-            ok, why = table_equals(tt, lambda a: (not a['deep'] if deep_true_skips else a['deep']) and a['matches_dir'] and ((not a['one_fs']) or a['same_fs']))
-            ctx.check(ok, rule, b.path + '|read-condition', rd[0].where(), 'read_dir iff within depth && matches_dir && (!one_fs || same_fs)  [%s]' % why, 'the condition under which a directory is read differs: %s' % why)
+            ok, why = table_equals(tt, lambda a: (not a['deep'] if deep_true_skips else a['deep']) and a['matches_dir'] and ((not a['one_fs']) or a['same_fs']) and
+                                   ((not a['follow_links']) or a['first_visit'] if mv else True))
+            ctx.check(ok, rule, b.path + '|read-condition', rd[0].where(), 'read_dir iff within depth && matches_dir && (!one_fs || same_fs)%s  [%s]' % (' && (!follow_links || not visited yet at this or a smaller level)' if mv else '', why),
+                      'the condition under which a directory is read differs: %s' % why)
             # same_fs is asked about this directory and the root device
             ok2 = 2 in backslice(b, [sf[0].args[1]]).params and 3 in backslice(b, [sf[0].args[2]]).params
             ctx.check(ok2, rule, b.path + '|same_fs-args', sf[0].where(), 'same_fs(path, root device)', 'same_fs is asked about something else')
